@@ -1,5 +1,6 @@
 import OnetVerif.Model.C18
 import OnetVerif.Proofs.C18Lemmas
+import OnetVerif.Proofs.C18Text
 import OnetVerif.Shapes
 /-! Property C18 — configuration files round-trip and always yield the same identities.
 
@@ -322,6 +323,130 @@ theorem c18_unrelated_service_irrelevant (suites : List Suite) (reg : List (Str 
   · unfold getServerIdentity loadCothority
     simp only
     rw [parseServices_congr_reg hc.services fun c hc' => regSuite_regDel_other _ _ _ (hp c hc')]
+
+/-! ### the text of the files: what the writer emits is what the reader reads
+(`Model/C18Toml.lean`: the encoder of BurntSushi/toml v0.3.1 for `GroupToml` / `CothorityConfig`
+and the reader for that subset; lemmas in `Proofs/C18Toml.lean`, `Proofs/C18Text.lean`) -/
+
+/-- **every string survives the writer's quoting** — descriptions, URLs, addresses, key texts with
+quotes, backslashes, line breaks, tabs, control characters, any bytes: the reader, started behind
+the opening quote of what `writeQuoted` wrote, returns exactly the string and stops behind the
+closing quote -/
+theorem c18_toml_string_roundtrip (s acc rest : Str) :
+    Toml.unq (s.flatMap Toml.esc ++ 34 :: rest) acc = .ok (acc ++ s, rest) :=
+  Toml.unq_quote s acc rest
+
+/-- the full statement for table names (service names are the keys of the `Services` tables) … -/
+def C18_key_full : Prop :=
+  ∀ k : Str, k ≠ [] → Toml.pathComp (Toml.quoteKey k ++ [93]) = .ok (k, [93])
+
+/-- … **fails**: `Key.maybeQuoted` escapes only `"`, so a name with a backslash comes back as
+another name (`a\tb` ↦ `a<TAB>b`) or makes the file unreadable.  Observed on the real library by the
+harness (class service-names); no registered service of onet has such a name. -/
+theorem c18_key_full_fails : ¬ C18_key_full := by
+  intro h
+  have := h [97, 92, 116, 98] (by decide)
+  revert this
+  decide
+
+/-- what holds (`_partial`): names without backslash and line break are read back -/
+theorem c18_key_roundtrip_partial (k : Str) (hk : Toml.KeyOK k) (d : Nat) (rest : Str) (hd : d = 46 ∨ d = 93) :
+    Toml.pathComp (Toml.quoteKey k ++ d :: rest) = .ok (k, d :: rest) :=
+  Toml.pathComp_quoteKey k hk d rest hd
+
+/-- **a document the writer emits is read back as the same document** (tables in order, keys and
+values, indentation and blank lines included) -/
+theorem c18_toml_doc_roundtrip (root : Toml.Table) (tables : List Toml.Table) (hr : Toml.WFRoot root)
+    (ht : ∀ t ∈ tables, Toml.WFTable t) : Toml.parseDoc (Toml.emitDoc (root :: tables)) = .ok (root :: tables) :=
+  Toml.parseDoc_emitDoc root tables hr ht
+
+/-- **`GroupToml.String()` read back** as the same `GroupToml`, the entries of every `Services`
+map in the byte order of their names -/
+theorem c18_group_text_roundtrip (g : List Toml.TServer) (h : Toml.GroupTextOK g) :
+    Toml.readGroupText (Toml.emitGroup g) = .ok (g.map Toml.normServer) :=
+  Toml.readGroupText_emitGroup g h
+
+/-- **`CothorityConfig.Save` read back** as the same `CothorityConfig` -/
+theorem c18_private_text_roundtrip (p : Toml.TPriv)
+    (hn : ∀ l, p.services = some l → (l.map (·.name)).Nodup ∧ ∀ e ∈ l, Toml.KeyOK e.name) :
+    Toml.readPrivateText (Toml.emitPrivate p) = .ok (Toml.normPriv p) :=
+  Toml.readPrivateText_emitPrivate p hn
+
+/-- **keys that differ only in case are rejected** (repaired code, `app.ambiguousKeys`): a table
+that holds two keys the decoder would store into the same field never yields an identity — for
+group files, for private configurations, whatever else the file holds -/
+theorem c18_ambiguous_keys_rejected :
+    (∀ (st : Toml.GSt) (t : Toml.Table), Toml.ambiguous (t.kvs.map (·.1)) = true → Toml.groupStep st t = .err) ∧
+    (∀ (st : Toml.PSt) (t : Toml.Table), t.array = false → Toml.ambiguous (t.kvs.map (·.1)) = true →
+        Toml.privStep st t = .err) := by
+  constructor
+  · intro st t h; simp [Toml.groupStep, h]
+  · intro st t ha h; simp [Toml.privStep, ha, h]
+
+/-- the design of the witness file of the finding: `Public` and `public` in one `[[servers]]` table -/
+example : Toml.readGroupText
+    [91, 91, 115, 101, 114, 118, 101, 114, 115, 93, 93, 10, 80, 117, 98, 108, 105, 99, 32, 61, 32, 34, 97, 34, 10,
+     112, 117, 98, 108, 105, 99, 32, 61, 32, 34, 98, 34, 10] = .err := by decide
+
+/-- a file that merely spells its keys in lower case is read -/
+example : Toml.readGroupText
+    [91, 91, 115, 101, 114, 118, 101, 114, 115, 93, 93, 10, 112, 117, 98, 108, 105, 99, 32, 61, 32, 34, 98, 34, 10] =
+    .ok [{ address := [], suite := [], pub := [98], description := [], url := [], services := none }] := by decide
+
+/-- **writing out what was read and reading it again, over the text**: a group read from a file
+whose servers all use suite `S` is written by `Group.Save(S)`; the *text* that is written — every
+string quoted, every service table under its quoted name — is read by `ReadGroupDescToml` as exactly
+the identities of the first read (an empty description as the placeholder), whatever the
+descriptions, URLs and addresses contain.  Hypotheses of `c18_write_read_same`, plus: the keys of
+every `Services` map are distinct (it is a map), registered service names contain no backslash or
+line break (`c18_key_full_fails`), and kyber accepts the keys it wrote itself (`NotBad`). -/
+theorem c18_write_read_text (suites : List Suite) (reg : List (Str × Suite)) (S : Suite)
+    (hS : findSuite suites (defaultSuite S.name) = some S) (hpos : 0 < S.psize)
+    (hreg : ∀ e ∈ reg, 0 < e.2.psize) (hkeys : RegKeysOK reg)
+    (cfg : List ServerToml) (g : List ServerId)
+    (hsuite : ∀ s ∈ cfg, findSuite suites (defaultSuite s.suite) = some S)
+    (hpriv : ∀ s ∈ cfg, ∀ c ∈ s.services, c.priv = [])
+    (hdist : ∀ s ∈ cfg, DistinctNames s.services)
+    (bad : List Str) (hbad : NotBad bad g)
+    (h : readGroup suites reg cfg = .ok g) :
+    ∃ txt, saveGroupText S reg g = some txt ∧
+      readGroupFile suites reg bad txt = .ok (.ok (g.map fillDesc)) := by
+  obtain ⟨ts, hw, hrd, _, _, _⟩ := c18_write_read_same suites reg S hS hpos hreg cfg g hsuite hpriv h
+  obtain ⟨t1, t2⟩ := write_group_text hreg hkeys cfg g ts hsuite hpriv hdist (readServers_of_readGroup h) hbad hw
+  refine ⟨Toml.emitGroup (ts.map tserverOf), by simp [saveGroupText, hw], ?_⟩
+  unfold readGroupFile
+  rw [Toml.readGroupText_emitGroup _ t2]
+  simp only [t1, hrd]
+
+/-- **a private configuration saved and loaded again, over the text**: `LoadCothority`, then
+`CothorityConfig.Save`, then `LoadCothority` + `GetServerIdentity` on the file that was written gives
+the identity of the first load -/
+theorem c18_private_save_load_text (suites : List Suite) (reg : List (Str × Suite)) (bad : List Str) (p : Toml.TPriv)
+    (hn : ∀ l, p.services = some l → (l.map (·.name)).Nodup ∧ ∀ e ∈ l, Toml.KeyOK e.name) :
+    readPrivateFile suites reg bad (savePrivateText p) =
+      .ok (getServerIdentity suites reg (loadCothority (privCfgOf bad p))) := by
+  have hidem : defaultSuite (defaultSuite p.suite) = defaultSuite p.suite := by
+    unfold defaultSuite
+    by_cases h : p.suite = []
+    · simp [h, ed25519]
+    · simp [h]
+  unfold readPrivateFile savePrivateText
+  rw [Toml.readPrivateText_emitPrivate _ (by simpa using hn)]
+  simp only
+  congr 1
+  cases hsv : p.services with
+  | none =>
+    simp [privCfgOf, Toml.normPriv, hsv, loadCothority, hidem]
+  | some l =>
+    have hperm : ((Toml.sortSvcs l).map (svcCfgOf bad)).Perm (l.map (svcCfgOf bad)) := (Toml.sortSvcs_perm l).map _
+    have hnd : (((Toml.sortSvcs l).map (svcCfgOf bad)).map (·.name)).Nodup := by
+      have : ((Toml.sortSvcs l).map (svcCfgOf bad)).map (·.name) = (Toml.sortSvcs l).map (·.name) := by
+        rw [List.map_map]; rfl
+      rw [this]
+      exact Toml.sortSvcs_names_nodup (hn l hsv).1
+    unfold getServerIdentity
+    simp only [privCfgOf, Toml.normPriv, hsv, loadCothority, hidem, Option.map_some, Option.getD_some]
+    rw [parseServices_perm hperm hnd]
 
 /-! ### the code regions the model stands for
 Regenerated from /repo's source on every run (`harness/cmd/astfacts` → `OnetVerif/Shapes.lean`): the
